@@ -51,6 +51,7 @@ class World:
         self.obs = []
         self.notes = {}
         self.n_lemmas = 0
+        self.floor = 1.0  # magnitude floor of the float-mode comparison tolerance (see set_scale)
         self.n_struct = 0  # equalities closed by structural identity of the two terms
 
     # ------------------------------------------------------------------ inputs
@@ -101,6 +102,19 @@ class World:
             return SymReal(x.t, nl=x.nl, nan=flag.t if isinstance(flag, SymBool) else z3.BoolVal(bool(flag)))
         return float("nan") if flag else x
 
+    def set_scale(self, *arrays):
+        """float mode: compare relative to the magnitude of these inputs (results that are linear in
+        them scale with them; a violation at a tiny input scale must not drown in an absolute floor)"""
+        if self.sym:
+            return
+        m = 0.0
+        for a in arrays:
+            for v in np.ravel(np.asarray(a, dtype=float)):
+                if v == v:
+                    m = max(m, abs(float(v)))
+        if m > 0:
+            self.floor = min(self.floor, m) if m < 1.0 else self.floor
+
     def const(self, x):
         """exact constant in both modes"""
         return x
@@ -135,7 +149,7 @@ class World:
         b = float(b)
         if a != a or b != b:
             return (a != a) and (b != b)
-        return abs(a - b) <= RTOL * max(1.0, abs(a), abs(b))
+        return abs(a - b) <= RTOL * max(self.floor, abs(a), abs(b))
 
     def same(self, a, b):
         """data movement: must be the identical entry (same symbol / same float)"""
@@ -145,7 +159,7 @@ class World:
         r = a <= b
         if isinstance(r, SymBool):
             return r
-        return bool(a <= b + RTOL * max(1.0, abs(a), abs(b)))
+        return bool(a <= b + RTOL * max(self.floor, abs(a), abs(b)))
 
     def lt(self, a, b):
         r = a < b
@@ -159,7 +173,7 @@ class World:
         r = a >= b
         if isinstance(r, SymBool):
             return r
-        return bool(a >= b - RTOL * max(1.0, abs(a), abs(b)))
+        return bool(a >= b - RTOL * max(self.floor, abs(a), abs(b)))
 
     def ne(self, a, b):
         r = a != b
